@@ -1,2 +1,254 @@
-(* Properties_C16.v — placeholder, replaced once VarOptProofs.v is in place *)
-From DS Require Import VarOptDefs.
+(* Properties_C16.v — VarOpt sampling sketch and union: samples conserve total weight and keep heavy items exactly.
+   Only statements, closed by [exact]; proofs live in VarOptProofs.v / VarOptTheorems.v / VarOptUnion.v / VarOptMarks.v.
+
+   All theorems are about the EXACT-ARITHMETIC (Q) instance of the model text of VarOptDefs.v (the binary64 instance
+   of the same text is what is extracted and replayed bit for bit against the C++).  They hold for every stream
+   [xs] of (item, weight) updates (negative weights are refused, zero weights ignored, as in the code), every k >= 1,
+   every sequence [c] of random draws (too short sequences included) and every decoding [cu] of the unit-interval
+   draws. *)
+From Coq Require Import ZArith List Bool QArith Lia Permutation.
+From DS Require Import RunnerLib VarOptDefs VarOptProofs VarOptTheorems VarOptUnion VarOptMarks.
+Import ListNotations.
+
+Section AnyDraws.
+  Variable Item : Type.
+  Variable ditem : Item.
+  Variable cu : Z -> Q.
+  Variable k : nat.
+  Hypothesis Hk : (1 <= k)%nat.
+  Variable gadget : bool.
+
+  (* a history: updates, serialize/deserialize round trips and resets in any order ([hop], [hrun] in VarOptTheorems.v);
+     [input ops] = the accepted (positive-weight) updates since the last reset *)
+  Notation sketch_after ops c := (fst (hrun Item ditem cu (Qempty Item k gadget) ops c)).
+  Notation input ops := (hlog Item [] ops).
+  Notation wsum := (wsum Item).
+  Notation sumw := (sumw Item).
+  Notation pairs_of := (pairs_of Item).
+  Notation Qtau := (Qtau Item).
+
+  Let HI := fun ops c => history_Inv Item ditem cu k gadget ops c Hk.
+
+  (* the invariant every history establishes ([Inv] in VarOptTheorems.v: at rest, provenance, weight, n); it is the
+     hypothesis on the input sketches of the union theorems below *)
+  Theorem C16_history_inv : forall ops c, Inv Item ditem k (sketch_after ops c) (input ops).
+  Proof. exact HI. Qed.
+
+  (* h + r = min(n, k); the M region is empty at rest; n counts the accepted updates *)
+  Theorem C16_counts : forall ops c,
+    let S := sketch_after ops c in
+    vM S = [] /\ mm S = 0%nat /\ vn S = Z.of_nat (length (input ops)) /\
+    (hh S + rr S = Nat.min (length (input ops)) k)%nat /\
+    get_num_samples Item Q S = Nat.min (length (input ops)) k.
+  Proof. intros ops c. exact (inv_counts Item ditem k _ _ (HI ops c)). Qed.
+
+  (* sum of the H weights + total_wt_r = sum of the input weights *)
+  Theorem C16_weight : forall ops c,
+    let S := sketch_after ops c in sumw (vH S) + vtot S == wsum (input ops).
+  Proof. intros ops c. exact (inv_weight Item ditem k _ _ (HI ops c)). Qed.
+
+  (* tau never decreases (along a history without reset) *)
+  Theorem C16_tau_monotone : forall ops ops' c, no_reset Item ops' ->
+    let S1 := sketch_after ops c in let S2 := sketch_after (ops ++ ops') c in
+    (1 <= rr S1)%nat -> (1 <= rr S2)%nat /\ Qtau S1 <= Qtau S2.
+  Proof. intros ops ops' c Hnr. exact (history_tau_monotone Item ditem cu k gadget ops ops' c Hk Hnr). Qed.
+
+  (* while n <= k the sketch holds exactly the input *)
+  Theorem C16_exact_mode : forall ops c, (length (input ops) <= k)%nat ->
+    let S := sketch_after ops c in vR S = [] /\ Permutation (input ops) (pairs_of (vH S)).
+  Proof. intros ops c. exact (inv_exact_mode Item ditem k _ _ (HI ops c)). Qed.
+
+  (* where every input went: H (exact weight), R (LR), dropped (LD); everything outside H is no heavier than tau *)
+  Theorem C16_provenance : forall ops c,
+    let S := sketch_after ops c in
+    exists LR LD, Permutation (input ops) (pairs_of (vH S) ++ LR ++ LD) /\ map fst LR = vR S /\
+      (forall p, In p (LR ++ LD) -> (1 <= rr S)%nat /\ snd p <= Qtau S).
+  Proof. intros ops c. exact (inv_provenance Item ditem k _ _ (HI ops c)). Qed.
+
+  (* every input heavier than tau is in H with its exact weight *)
+  Theorem C16_heavy_kept : forall ops c x w,
+    let S := sketch_after ops c in
+    In (x, w) (input ops) -> (rr S = 0%nat \/ Qtau S < w) -> In (x, w) (pairs_of (vH S)).
+  Proof. intros ops c. exact (inv_heavy_kept Item ditem k _ _ (HI ops c)). Qed.
+
+  (* samples come from the input *)
+  Theorem C16_samples_from_input : forall ops c,
+    let S := sketch_after ops c in
+    (forall p, In p (pairs_of (vH S)) -> In p (input ops)) /\
+    (forall x, In x (vR S) -> exists w, In (x, w) (input ops) /\ w <= Qtau S).
+  Proof. intros ops c. exact (inv_samples_from_input Item ditem k _ _ (HI ops c)). Qed.
+
+  (* estimation mode: H is a binary min-heap (as an array) and no H item is lighter than tau *)
+  Theorem C16_heap : forall ops c,
+    let S := sketch_after ops c in
+    (1 <= rr S)%nat -> hp Item ditem Q 0 Qle (vH S) /\ forall y, In y (vH S) -> Qtau S <= s_wt y.
+  Proof. intros ops c. exact (inv_heap Item ditem k _ _ (HI ops c)). Qed.
+
+  (* update never throws std::logic_error in exact arithmetic: refused iff w < 0, ignored iff w = 0, applied iff w > 0
+     (whatever draws come next) *)
+  Theorem C16_update_total : forall ops c x w c',
+    match Qupdate Item ditem cu (sketch_after ops c) x w false c' with
+    | UThrew _ _ _ => False
+    | URefused _ _ => w < 0
+    | UIgnored _ _ => w == 0
+    | UOk _ _ _ _ => 0 < w
+    end.
+  Proof. intros ops c. exact (inv_update_total Item ditem cu k _ _ (HI ops c)). Qed.
+
+  (* subset sums: for EVERY predicate the call returns, estimate = exact weight of matching H items + tau * #matching R
+     items, 0 <= estimate <= total input weight *)
+  Theorem C16_subset_sum : forall ops c p,
+    let S := sketch_after ops c in
+    exists est tot cnt, Qestimate Item S p = Some (est, tot, cnt) /\
+      est == psum Item p (vH S) + (if (rr S =? 0)%nat then 0 else Qtau S * qn (length (filter p (vR S)))) /\
+      0 <= est /\ est <= wsum (input ops) /\
+      ((1 <= rr S)%nat \/ (forall x, p x = true) -> tot == wsum (input ops)).
+  Proof. intros ops c p. exact (inv_estimate Item ditem k _ _ p (HI ops c)). Qed.
+
+  (* the always-true predicate: estimate = total input weight *)
+  Theorem C16_subset_sum_total : forall ops c,
+    exists est tot cnt, Qestimate Item (sketch_after ops c) (fun _ => true) = Some (est, tot, cnt) /\
+      est == wsum (input ops) /\ tot == wsum (input ops).
+  Proof. intros ops c. exact (inv_estimate_total Item ditem k _ _ (HI ops c)). Qed.
+
+  (* serialize + deserialize of any reachable sketch succeeds and returns the same regions (and can be updated again:
+     the result is again a [sketch_after] of the history extended by [RoundTrip], to which all theorems above apply) *)
+  Theorem C16_roundtrip : forall ops c,
+    let S := sketch_after ops c in
+    exists S', Qserde Item S = Some S' /\ vH S' = vH S /\ vR S' = vR S /\ vtot S' == vtot S /\
+               vn S' = vn S /\ vk S' = vk S /\ vM S' = [] /\ mm S' = 0%nat.
+  Proof. intros ops c. exact (history_roundtrip Item ditem cu k gadget ops c Hk). Qed.
+End AnyDraws.
+
+
+Section Union.
+  Variable Item : Type.
+  Variable ditem : Item.
+  Variable cu : Z -> Q.
+
+  (* union.update(sketch), for a union in any reachable state ([UInv u n W]: n = sum of the n, W = sum of the input
+     weights of the sketches given so far) and any sketch at rest with input A: never throws in exact arithmetic,
+     n grows by the sketch's n, the gadget's weight by the sketch's total input weight, the gadget's sample items
+     ([sitems]) come from its previous samples and the sketch's samples *)
+  Theorem C16_union_update : forall (u : vu Item Q) n W (S : vo Item Q) k A c,
+    UInv Item ditem u n W -> Inv Item ditem k S A ->
+    exists u' c', Qunion_update Item ditem cu u S c = (u', c', true) /\
+      UInv Item ditem u' (n + Z.of_nat (length A)) (W + wsum Item A) /\ umaxk u' = umaxk u /\
+      incl (sitems Item (ugad u')) (sitems Item (ugad u) ++ sitems Item S).
+  Proof. exact (union_update_spec Item ditem cu). Qed.
+
+  (* get_result, whichever of the three coercers is taken: if it returns, the result has the union's n and total weight,
+     k <= max_k, at most k samples, empty M region *)
+  Theorem C16_union_result : forall a4 (u : vu Item Q) n W c res c',
+    UInv Item ditem u n W -> Qresult_gen Item ditem cu a4 u c = Some (res, c') ->
+    vn res = n /\ sumw Item (vH res) + vtot res == W /\ (vk res <= umaxk u)%nat /\ (hh res + rr res <= vk res)%nat /\
+    vM res = [] /\ mm res = 0%nat /\ wpos Item (vH res) /\ vgad res = false /\
+    incl (sitems Item res) (sitems Item (ugad u)).
+  Proof. exact (get_result_spec Item ditem cu). Qed.
+
+  (* a union of ANY list of sketches (any k, any fill state, any order, repetitions allowed), any max_k >= 1, any draws:
+     merging never throws, n and total weight are conserved, and the result has that n, that weight, k <= max_k *)
+  Theorem C16_union_conserves : forall max_k ins c c2, (1 <= max_k)%nat -> valid_inputs Item ditem ins ->
+    exists u c1, ufeed Item ditem cu (Quempty Item max_k) (map fst ins) c = (u, c1, true) /\
+      un u = total_n Item ins /\ umaxk u = max_k /\
+      sumw Item (vH (ugad u)) + vtot (ugad u) == total_w Item ins /\
+      forall a4 res c3, Qresult_gen Item ditem cu a4 u c2 = Some (res, c3) ->
+        vn res = total_n Item ins /\ sumw Item (vH res) + vtot res == total_w Item ins /\
+        (vk res <= max_k)%nat /\ (hh res + rr res <= vk res)%nat /\ vM res = [] /\ mm res = 0%nat.
+  Proof. exact (union_conserves Item ditem cu). Qed.
+
+  (* resolve_tau: after update(sketch) with an estimation-mode sketch the outer tau is the larger of the previous outer tau
+     and the sketch's tau (it is the maximum tau of the estimation-mode sketches seen); exact-mode sketches leave it alone *)
+  Theorem C16_union_outer_tau : forall (u : vu Item Q) (sk : vo Item Q),
+    otau_ok Item u -> Est Item ditem sk ->
+    let u' := Qresolve_tau Item u sk in
+    otau_ok Item u' /\ (1 <= uotd u')%nat /\
+    Qtau Item sk <= Qouter_tau Item u' /\ Qouter_tau Item u <= Qouter_tau Item u' /\
+    (Qouter_tau Item u' == Qtau Item sk \/ Qouter_tau Item u' == Qouter_tau Item u).
+  Proof. exact (resolve_tau_spec Item ditem). Qed.
+
+  (* serialize + deserialize of a union in any reachable state succeeds and keeps n, total weight and max_k *)
+  Theorem C16_union_roundtrip : forall (u : vu Item Q) n W, UInv Item ditem u n W ->
+    exists u', Quserde Item u = Some u' /\ UInv Item ditem u' n W /\ umaxk u' = umaxk u /\ un u' = un u /\
+               incl (sitems Item (ugad u')) (sitems Item (ugad u)).
+  Proof. exact (union_serde_spec Item ditem). Qed.
+
+  (* EVERY union history (update(sketch) with sketches of any k and fill state, serialize/deserialize, reset, in any
+     order; [uop], [urun], [ulog] in VarOptUnion.v), any max_k >= 1, any draws: nothing throws, the union's n and total
+     weight are those of the sketches given since the last reset, and the result has that n, that weight, k <= max_k *)
+  Theorem C16_union_history : forall max_k ops c c2, (1 <= max_k)%nat -> valid_uops Item ditem ops ->
+    let n := fst (ulog Item (0%Z, 0) ops) in let W := snd (ulog Item (0%Z, 0) ops) in
+    exists u c1, urun Item ditem cu (Quempty Item max_k) ops c = (u, c1, true) /\
+      un u = n /\ umaxk u = max_k /\ sumw Item (vH (ugad u)) + vtot (ugad u) == W /\
+      forall a4 res c3, Qresult_gen Item ditem cu a4 u c2 = Some (res, c3) ->
+        vn res = n /\ sumw Item (vH res) + vtot res == W /\
+        (vk res <= max_k)%nat /\ (hh res + rr res <= vk res)%nat /\ vM res = [] /\ mm res = 0%nat.
+  Proof. exact (union_history Item ditem cu). Qed.
+
+  (* the samples of a union result come from the input: every sample item (H or R) of whatever get_result returns is the
+     item of an accepted update of one of the sketches given to the union since the last reset *)
+  Theorem C16_union_samples_from_input : forall max_k ops c c2 a4 res c3, (1 <= max_k)%nat -> valid_uops Item ditem ops ->
+    Qresult_gen Item ditem cu a4 (fst (fst (urun Item ditem cu (Quempty Item max_k) ops c))) c2 = Some (res, c3) ->
+    forall x, In x (sitems Item res) -> exists w, In (x, w) (uinputs Item [] ops).
+  Proof. exact (union_history_items Item ditem cu). Qed.
+
+  (* ... and every H sample of the result is an accepted (item, weight) pair of one of those sketches WITH ITS EXACT WEIGHT
+     (num_marks_in_h_ counts the marked H slots through every operation; the R samples of the inputs enter the gadget marked,
+     and get_result leaves no marked slot in H) *)
+  Theorem C16_union_H_exact : forall max_k ops c c2 a4 res c3, (1 <= max_k)%nat -> valid_uops Item ditem ops ->
+    Qresult_gen Item ditem cu a4 (fst (fst (urun Item ditem cu (Quempty Item max_k) ops c))) c2 = Some (res, c3) ->
+    forall p, In p (pairs_of Item (vH res)) -> In p (uinputs Item [] ops).
+  Proof. exact (union_history_H Item ditem cu). Qed.
+End Union.
+
+(* non-vacuity: k = 3, seven updates (one refused, one ignored) and a round trip, draws 0.5 / index 1: estimation mode is reached,
+   tau = 11/2, the item of weight 9 is kept exactly, the weights add up to 20 *)
+Definition ex_cu (z : Z) : Q := inject_Z z / 4.
+Definition ex_stream : list (hop Z) :=
+  [Upd Z 1%Z 2; Upd Z 2%Z 9; Upd Z 3%Z (-(1)); Upd Z 4%Z 3; Upd Z 5%Z 0; Upd Z 6%Z 4; RoundTrip Z; Upd Z 7%Z 2].
+Definition ex_draws : chs := mkchs [2; 1; 2; 1; 2; 1; 2; 1]%Z false.
+Example C16_nonvacuous :
+  let S := fst (hrun Z 0%Z ex_cu (Qempty Z 3 false) ex_stream ex_draws) in
+  length (hlog Z [] ex_stream) = 5%nat /\ hh S = 1%nat /\ rr S = 2%nat /\
+  Qeq_bool (Qtau Z S) (11 # 2) = true /\ In (2%Z, 9) (pairs_of Z (vH S)) /\
+  Qeq_bool (sumw Z (vH S) + vtot S) 20 = true.
+Proof. vm_compute. repeat split; auto. Qed.
+
+(* non-vacuity of the union theorems: A (k = 2, five unit weights: estimation mode, tau = 5/2) and B (k = 4, weights 7, 3)
+   into a union with max_k = 8: get_result returns (pseudo-exact shortcut: both marked items of A are still in H),
+   n = 7, total weight 15, k = 4 *)
+Definition ex_A : vo Z Q := fst (hrun Z 0%Z ex_cu (Qempty Z 2 false) [Upd Z 1%Z 1; Upd Z 2%Z 1; Upd Z 3%Z 1; Upd Z 4%Z 1; Upd Z 5%Z 1] ex_draws).
+Definition ex_B : vo Z Q := fst (hrun Z 0%Z ex_cu (Qempty Z 4 false) [Upd Z 11%Z 7; Upd Z 12%Z 3] ex_draws).
+Example C16_union_nonvacuous :
+  match ufeed Z 0%Z ex_cu (Quempty Z 8) [ex_A; ex_B] ex_draws with
+  | (u, c1, okb) =>
+      (okb = true) /\ (un u = 7%Z) /\
+      (match Qresult Z 0%Z ex_cu u c1 with
+       | Some (res, _) => (vn res = 7%Z) /\ (vk res = 4%nat) /\ (hh res = 2%nat) /\ (rr res = 2%nat) /\
+                          (Qeq_bool (sumw Z (vH res) + vtot res) 15 = true)
+       | None => False
+       end)
+  end.
+Proof. vm_compute. repeat split; auto. Qed.
+
+Print Assumptions C16_history_inv.
+Print Assumptions C16_union_update.
+Print Assumptions C16_union_result.
+Print Assumptions C16_union_conserves.
+Print Assumptions C16_union_outer_tau.
+Print Assumptions C16_union_roundtrip.
+Print Assumptions C16_union_history.
+Print Assumptions C16_union_samples_from_input.
+Print Assumptions C16_union_H_exact.
+Print Assumptions C16_counts.
+Print Assumptions C16_weight.
+Print Assumptions C16_tau_monotone.
+Print Assumptions C16_exact_mode.
+Print Assumptions C16_provenance.
+Print Assumptions C16_heavy_kept.
+Print Assumptions C16_samples_from_input.
+Print Assumptions C16_heap.
+Print Assumptions C16_update_total.
+Print Assumptions C16_subset_sum.
+Print Assumptions C16_subset_sum_total.
+Print Assumptions C16_roundtrip.
